@@ -131,7 +131,8 @@ def apply1 (d : Doc) (u : Up) : R :=
     | some (opt', m2) =>
       match secStep d.prod path (origVer u) (newVer u) m2 with
       | none => .err
-      | some (prod', _) => .ok ⟨dev', opt', prod'⟩
+      -- fix 400b3071: an update no section holds the key of is an error (it was passed over in silence)
+      | some (prod', m3) => if m3 then .ok ⟨dev', opt', prod'⟩ else .err
 
 def write (d : Doc) : List Up → R
   | [] => .ok d
